@@ -438,6 +438,13 @@ pub fn build(
                 .flatten())
             .unwrap_or(semantic.type_registry.pointer_size());
 
+        // Rust only accepts power-of-two alignments (and zero would divide by zero below).
+        if !alignment.is_power_of_two() {
+            anyhow::bail!(
+                "alignment {alignment} of type `{resolvee_path}` is not a power of two"
+            );
+        }
+
         // Calculate the minimum required alignment.
         let required_alignment = util::lcm(
             regions
